@@ -62,3 +62,8 @@ CORPUS += [
     M("n-parsed-capabilities-cached-as-copy", C, "        self._parse_capabilities(payload)\n\n    @property\n    def raw_capabilities", "        self._parse_capabilities(payload)\n        CapabilitiesResponse._seen[bytes(payload)] = dict(self._capabilities)\n\n    @property\n    def raw_capabilities", "S",
       also=[(C, "    def __init__(self, payload: memoryview) -> None:\n        super().__init__(payload)\n\n        self._capabilities = {}", "    _seen: dict = {}\n\n    def __init__(self, payload: memoryview) -> None:\n        super().__init__(payload)\n\n        self._capabilities = {}")]),
 ]
+# round 7: response objects are not memoised (C15.e); nothing a getter reads is derived at construction time only (C15.f)
+CORPUS += [
+    M("fan-flag-precomputed", C, "        self._parse_capabilities(payload)\n\n    @property\n    def raw_capabilities", "        self._parse_capabilities(payload)\n        self._has_fan = any(k.startswith(\"fan_\") for k in self._capabilities)\n\n    @property\n    def raw_capabilities",
+      also=[(C, "        if any(k.startswith(\"fan_\") for k in self._capabilities):", "        if self._has_fan:")]),
+]
